@@ -229,6 +229,12 @@ def colour_domain(view):
     return [z3.ULE(c, 1) for c in view.C]
 
 
+def capacities(view):
+    """Vec bookkeeping: len <= capacity, capacities far below the address-space limit (doubling cannot overflow)"""
+    b, u = view.buffer, view.unused
+    return [z3.ULE(b.len, b.cap), z3.ULE(b.cap, bv(1 << 40, 64)), z3.ULE(u.len, u.cap), z3.ULE(u.cap, bv(1 << 40, 64))]
+
+
 def link_typed(view):
     """every link field of every slot - in the tree, free, or the sentinel - is the empty marker or a slot number below
     the buffer length (links are only ever written from slot numbers, NIL and EMPTY_REF; free slots keep stale ones)"""
@@ -294,6 +300,7 @@ def inv_witness(view, tag):
     valid = view.valid
     INF = (1 << KW) + 1
     f = [view.buffer.len == n, z3.Not(it[0]), z3.Or(root == EMPTY32, valid(root))]
+    f += capacities(view)
     f += colour_domain(view)
     f += link_typed(view)
     cnt = bv(0, 64)
@@ -373,7 +380,7 @@ def inv_closed(view):
     in_tree, ups, alive = closed_in_tree(view)
     G = {}
     G['shape'] = [view.buffer.len == n, b_or(b_eq(root, EMPTY32), valid(root)),
-                  z3.Implies(root != EMPTY32, pick(P, root) == EMPTY32)]
+                  z3.Implies(root != EMPTY32, pick(P, root) == EMPTY32)] + capacities(view)
     links, redred = [], []
     for i in range(1, n):
         l, r = L[i], R[i]
